@@ -44,6 +44,10 @@ type Spec struct {
 	// these knobs instead of the shipped full-size configuration (wired exactly
 	// as timingconfig.Builder.Build does).
 	Mini *MiniKnobs
+	// SchedSeed, when non-zero, gives the goroutine controller its own
+	// decision stream (so that the host schedule can be varied while the
+	// workload and the event order stay fixed).
+	SchedSeed uint64
 }
 
 // MiniKnobs are the drawn parameters of a mini timing platform.
@@ -83,7 +87,11 @@ func Build(spec Spec, ch *choice.Source, scratch string) *Platform {
 		mode = simengine.Permute
 	}
 	p.Engine = simengine.New(mode, ch)
-	p.Sched = gosched.New(ch, spec.Policy)
+	schedCh := ch
+	if spec.SchedSeed != 0 {
+		schedCh = choice.New(spec.SchedSeed)
+	}
+	p.Sched = gosched.New(schedCh, spec.Policy)
 	p.Sched.EngineBurstMax = spec.Burst
 	p.Engine.BeforeEvent = p.Sched.EngineYield
 
